@@ -194,11 +194,24 @@ def b_multisector_dir(p):
     return _master(iso)
 
 
+def b_ladder(p):
+    """every directory of a 24 level chain holds two sub-directories A (the chain) and B (empty)"""
+    iso = p.PyCdlib()
+    iso.new(interchange_level=4)
+    path = ''
+    for i in range(25):
+        iso.add_directory(path + '/B')
+        path += '/A'
+        iso.add_directory(path)
+    iso.add_fp(_fp(b'bottom\n'), 7, path + '/F')
+    return _master(iso)
+
+
 BASE_BUILDERS = [
     ('plain1', b_plain1), ('l3_joliet', b_l3_joliet), ('rr109', b_rr109), ('rr112', b_rr112),
     ('deep', b_deep), ('l4', b_l4), ('xa', b_xa), ('udf', b_udf), ('eltorito', b_eltorito),
     ('hybrid_mbr', b_hybrid_mbr), ('hybrid_efi_mac', b_hybrid_efi_mac), ('dup_pvd', b_dup_pvd),
-    ('multisector_dir', b_multisector_dir)]
+    ('multisector_dir', b_multisector_dir), ('ladder', b_ladder)]
 # quick tier: every single fault on these (one per parser family), sector truncations on all
 QUICK_FULL = ('rr109', 'udf', 'eltorito', 'hybrid_efi_mac')
 
@@ -430,12 +443,44 @@ def apply_faults(base, faults):
             if ft['fix']:
                 for fx in f.get('fix', []):
                     _refix(buf, fx)
+        elif ft['t'] == 'ladder':
+            for (off, raw) in _ladder_patches(base.data, ft['at']):
+                buf[off:off + len(raw)] = raw
+                touched.append((off, len(raw)))
         else:
             cut = ft['at']
     out = bytes(buf)
     if cut is not None:
         out = out[:cut]
     return out, touched, cut
+
+
+def _ladder_patches(data, depth):
+    """in the top `depth` levels of the A-chain: the record named B gets the extent of the record named A"""
+    import struct
+    out = []
+    ext = struct.unpack_from('<L', data, 16 * 2048 + 158)[0]      # root directory extent (PVD)
+    size = struct.unpack_from('<L', data, 16 * 2048 + 166)[0]
+    for _ in range(depth):
+        recs = {}
+        pos = ext * 2048
+        end = pos + size
+        while pos < end:
+            n = data[pos]
+            if n == 0:
+                pos = (pos // 2048 + 1) * 2048
+                continue
+            name = bytes(data[pos + 33:pos + 33 + data[pos + 32]])
+            recs[name] = pos
+            pos += n
+        if b'A' not in recs or b'B' not in recs:
+            break
+        a = recs[b'A']
+        b = recs[b'B']
+        out.append((b + 2, bytes(data[a + 2:a + 10])))             # extent, both byte orders
+        ext = struct.unpack_from('<L', data, a + 2)[0]
+        size = struct.unpack_from('<L', data, a + 10)[0]
+    return out
 
 
 # =============================================================================================
@@ -949,7 +994,8 @@ def run(ctx):
     for b in bases:
         sts = singles[b.name]
         if ctx.tier == 'quick' and b.name not in QUICK_FULL:
-            sts = [s for s in sts if s['faults'][0]['t'] == 'truncate' and s['faults'][0]['kind'] == 'sector']
+            sts = [s for s in sts if s['faults'][0]['t'] == 'ladder' or
+                   (s['faults'][0]['t'] == 'truncate' and s['faults'][0]['kind'] == 'sector')]
         selected[b.name] = sts + pairs.get(b.name, [])
 
     # ---- 3. apply, dedupe, run the real code ---------------------------------------------------------
